@@ -68,6 +68,10 @@ def run(ctx):
     ctx.guarded("R15.3", "line", lambda: line(ctx))
     ctx.guarded("R15.7", "block", lambda: block(ctx, "R15.7"))
     ctx.guarded("R15.9", "encoding", lambda: encoding(ctx))
+    ctx.rule("R15.10", "which Content-Type / Accept values are supported: MediaType::try_from accepts exactly the two canonical spellings modulo surrounding whitespace, case-sensitively (= C16 R16.1 MediaType)")
+    from .c06 import _Remap
+    from .c16 import media_type
+    ctx.guarded("R15.10", "media-type", lambda: media_type(_Remap(ctx, "R15.10")))
 
 
 def names(ctx):
